@@ -192,10 +192,27 @@ def main(argv=None):
             keep = list(ctx.disagreements)
             (getattr(mod, "search", None) or mod.run)(ctx)
             ctx.disagreements = keep + [d for d in ctx.disagreements if d not in keep][: ctx.max_keep]
-    except Exception:
+    except Exception as e:
         traceback.print_exc()
-        print("INFRA-ERROR: harness crashed")
-        return 2
+        # An exception that escapes from the REAL code (a frame inside <repo>/src/quantem) through a
+        # harness that runs to completion on the unchanged tree means the implementation now raises
+        # where it did not: the correspondence no longer checks.  That is reported as a broken tie
+        # (not as an infrastructure error, which would hide the change); failing inputs found before
+        # the crash are still reported as such.
+        repo_src = os.path.join(os.path.realpath(os.environ.get("QVERIF_REPO", "/repo")), "src", "quantem")
+        frames = traceback.extract_tb(e.__traceback__)
+        in_real = [f for f in frames if os.path.realpath(f.filename).startswith(repo_src)]
+        if not in_real or "lean" not in locals():
+            print("INFRA-ERROR: harness crashed")
+            return 2
+        last = in_real[-1]
+        ctx.disagreements.append({
+            "stream": "exception-in-real-code", "case": {"raised_at": f"{os.path.relpath(last.filename, repo_src)}:{last.lineno} in {last.name}",
+                                                         "harness_frame": next((f"{os.path.basename(f.filename)}:{f.lineno} in {f.name}"
+                                                                                for f in reversed(frames) if "/harness/props/" in f.filename), "?")},
+            "model": "no exception (the harness completes on the unchanged tree)",
+            "impl": f"{type(e).__name__}: {str(e)[:300]}",
+            "note": "the implementation raised inside a harness stream that does not expect an exception there"})
 
     for key, text in ctx.known_hits.items():
         print(f"KNOWN-FINDING: property={pid} key={key} {text}")
